@@ -191,6 +191,12 @@ def gen_client_cases(ctx, thorough):
         cases.append(f'badparam {op} 65535 2 overflow')
     cases.append('states rh 0 0 close')
     cases.append('states rh 0 0 refuse')
+    # notification SEQUENCES (repeats included): a serial port that cannot be opened, a refused TCP port
+    # a setting rejected for a full queue, then repeated: Ok means the command was queued
+    cases.append('gate rh 0 0 enable')
+    cases.append('gate rh 0 0 disable')
+    cases.append('notify rh 0 5 rtu')
+    cases.append('notify rh 0 7 tcp')
     # ONE list object passed to several write-multiple calls (periodic write of a prepared block; a value added in between)
     for op in ('wmc', 'wmr'):
         top = 1968 if op == 'wmc' else 123
@@ -497,6 +503,25 @@ def check_client(ctx, cases):
                      + (' (one value added after each call)' if add else '') + f': call #{j + 1} gave <return code>/<callback>@<request on the wire> = {g[:160]}; '
                      f'a call must not change the caller\'s list: expected {want[j][:160] if j < len(want) else "(nothing)"}', c, i, spec=';'.join(want))
             reuse_cases.append((c, op, start, n, k, add, ';'.join(got), i))
+        elif sc == 'gate':
+            classes['setting-rejected-then-repeated'] = classes.get('setting-rejected-then-repeated', 0) + 1
+            want = 'Ok/TooManyRequests/Ok/1'
+            if ffi != want:
+                g = ffi.split('/')
+                call = f'rodbus_client_channel_{extra}'
+                fail(f'setting-ok-but-not-applied.{extra}', f'queue of one, the channel task parked in a completion callback, a second request queued: {call} returned {g[1] if len(g) > 1 else "?"}; repeated after the callback '
+                     f'was released it returned {g[2] if len(g) > 2 else "?"} and the listener {"saw" if g[-1] == "1" else "NEVER saw"} {"Disabled" if extra == "disable" else "Connected"} (got {ffi}, expected {want}: '
+                     'Ok means the setting was queued, as with the Rust API)', c, i, spec=want)
+        elif sc == 'notify':
+            classes['notify-' + extra] = classes.get('notify-' + extra, 0) + 1
+            f_seq = ffi.split('/', 1)[1]
+            want = '>'.join((['Disabled'] + ['Wait'] * (n - 1)) if extra == 'rtu' else (['Disabled'] + ['Connecting', 'WaitAfterFailedConnect'] * n)[:n])
+            if rust != want:
+                fail('rust-api-unexpected.notify', f'{c}: the Rust API listener saw {rust}, expected {want}', c, i, nfi=True)
+            elif f_seq != rust:
+                what = 'serial channel (rodbus_client_channel_create_rtu) on a path that cannot be opened' if extra == 'rtu' else 'TCP channel on a refused port'
+                fail('listener-notifications-differ.' + extra, f'{what}: the first {n} notifications of the Rust API listener are {rust}; the C listener got {f_seq or "(nothing)"} within 3 s '
+                     '(every update must be forwarded, repeated states included)', c, i, spec=rust)
         elif sc == 'states':
             classes['states'] = classes.get('states', 0) + 1
             f_seq = ffi.split('/', 1)[1]
@@ -897,6 +922,32 @@ def check_filter_build(ctx, cases):
     return classes, list(zip(cases, impl))
 
 
+# ------------------------------------------------------------------------------------------------ (f) the error conversion, called directly
+IO_KINDS = ['NotFound', 'PermissionDenied', 'ConnectionRefused', 'ConnectionReset', 'ConnectionAborted', 'NotConnected', 'AddrInUse', 'AddrNotAvailable',
+            'BrokenPipe', 'AlreadyExists', 'WouldBlock', 'InvalidInput', 'InvalidData', 'TimedOut', 'WriteZero', 'Interrupted', 'Unsupported', 'UnexpectedEof',
+            'OutOfMemory', 'Other']
+
+
+def check_errconv(ctx, cases):
+    """ffi::RequestError::from(rodbus::RequestError) on every variant x every io::ErrorKind x every exception byte: the same-named C
+    value (Spec/FfiSpec.v request_error_alias: Io -> IoError, BadFrame -> BadFraming, Internal -> InternalError; an exception e ->
+    ModbusException<e>); the payload (which I/O error kind) never changes the class"""
+    impl = ctx.harness('ffi_errconv', cases, timeout=300)
+    bad = 0
+    for c, i in zip(cases, impl):
+        p = c.split()
+        want = ('ModbusException' + STD.get(int(p[1]), 'Unknown')) if p[0] == 'Exception' else ALIAS.get(p[0], p[0])
+        if i != want:
+            bad += 1
+            if bad <= 3:
+                val = f'RequestError::Io(ErrorKind::{p[1]})' if p[0] == 'Io' else (f'RequestError::Exception(ExceptionCode::from({p[1]}))' if p[0] == 'Exception' else f'RequestError::{p[0]}')
+                ctx.violation('error-not-same-named.conversion', f'ffi::RequestError::from({val}) = {i}; the same-named C value is {want}'
+                              + (' (every I/O error of the Rust API is reported as IoError, whatever its kind)' if p[0] == 'Io' else ''),
+                              {'cases': [['errconv', c]], 'impl': i, 'spec': want})
+    ctx.oblige('correspondence:request-error-conversion-direct', bad == 0, f'{bad} disagreements on {len(cases)} error values')
+    return len(cases)
+
+
 def run(ctx):
     ctx.translate(['FfiTables.v'])
     models_ok = ctx.build_models(['Base.Show', 'Model.Ffi', 'Spec.FfiSpec', 'Model.FfiWire', 'Model.FfiTls', 'Model.FfiFilter'])
@@ -913,7 +964,9 @@ def run(ctx):
         authz_cases = [c[1] for c in ctx.replay['cases'] if c[0] == 'authz']
         tls_cases = [c[1] for c in ctx.replay['cases'] if c[0] == 'tlscfg']
         fseq_cases = [c[1] for c in ctx.replay['cases'] if c[0] == 'fseq']
+        err_cases = [c[1] for c in ctx.replay['cases'] if c[0] == 'errconv']
     else:
+        err_cases = [f'Io {k}' for k in IO_KINDS] + [f'Exception {b}' for b in range(256)] + ['Internal', 'NoConnection', 'BadFrame', 'Shutdown', 'ResponseTimeout', 'BadRequest', 'BadResponse']
         tls_cases = gen_tls_cases()
         fseq_cases = gen_fseq_cases(ctx)
         server_cases = gen_server_cases(ctx, thorough)
@@ -931,6 +984,8 @@ def run(ctx):
     tc, t_samples = {}, []
     if tls_cases:
         tc, t_samples = check_tls_config(ctx, tls_cases)
+    if err_cases:
+        check_errconv(ctx, err_cases)
     fc_ = {}
     if fseq_cases:
         fc_, _ = check_filter_build(ctx, fseq_cases)
